@@ -242,6 +242,13 @@ def call_shapes() -> List[Any]:
         for a in nums + [P, L(True), L(False), ('f', 's'), ('str', 'a'), ('str', ''), ('str', '12')]:
             c = ('call', f, a)
             out.append(c if f == 'bool' else ('bin', '=', c, ('f', 's')) if f == 'str' else ('bin', '<', c, Y))
+    # primitive-typed parameters also take relational / logical expressions (the argument then needs its own parentheses)
+    bargs = [('bin', '=', X, Y), ('bin', '<', X, L(1)), ('not', P), ('bin', 'and', P, ('bin', 'or', Q, R)), ('bin', 'implies', P, Q), ('bin', 'in', X, XS),
+             ('q', 'forall', 'v', XS, ('bin', '>', ('var', 'v'), L(0)))]
+    for f in prim:
+        for a in bargs:
+            c = ('call', f, a)
+            out.append(c if f == 'bool' else ('bin', '=', c, ('f', 's')) if f == 'str' else ('bin', '<', c, Y))
     for f in ('log', 'atan2'):
         for a in nums[:9]:
             for b in nums[:9]:
@@ -281,3 +288,15 @@ def reuse_family() -> List[Tuple[Any, bool]]:
             out.append((('bin', 'and', ('bin', 'and', a, b), c), clash))
             out.append((('bin', 'or', a, ('bin', 'implies', b, c)), clash))
     return out
+
+
+def numeric_roots() -> List[Any]:
+    """non-boolean expressions (arithmetic, unary minus, calls, accesses) with and without alias references"""
+    atoms = [X, AX, ('idx', XS, ('fa', ('var', 'A'), 'i')), L(1), ('idx', AXS, L(0))]
+    out = list(atoms)
+    for a in atoms:
+        out += [('neg', a), ('neg', ('neg', a)), ('call', 'abs', a), ('neg', ('call', 'abs', a)), ('call', 'abs', ('neg', a))]
+        for b in atoms[:3]:
+            out += [('bin', o, a, b) for o in ARITH] + [('neg', ('bin', '+', a, b))]
+    out += [('set', X, AX), ('range', AX, L(3), False, True), ('call', 'max', X, AX), ('call', 'len', AXS), ('fa', ('var', 'A'), 'm'), ('str', 'a')]
+    return uniq(out)
